@@ -1111,11 +1111,24 @@ m("C11", "define-names-rsplit", TL,
   "            names = [n.strip() for n in name.strip('()').split(',')]",
   "            names = [n.strip() for n in name.strip('()').rsplit(',')]",
   expect="silent")  # no raise site in this function uses 'names'
-m("C11", "entity-shrinks-before-split", TL,
+m("C11", "split-parts-shrinks-before-split", TL,
+  '''    parts = []
+    start = i = 0
+    length = len(arg)
+    while i < length:
+        if arg[i] == ';' and i not in protected:
+            if i + 1 < length and arg[i + 1] == ';':
+                i += 2
+                continue
+            parts.append(arg[start:i])
+            start = i + 1
+        i += 1
+    parts.append(arg[start:])
+
+    parts = [p.replace(";;", ";") for p in parts]''',
   '''    arg = arg.replace(";;", "\\0")
-    parts = arg.split(';')''',
-  '''    arg = arg.replace(";;", "\\0").replace("&amp;", "&")
-    parts = arg.split(';')''', expect="silent")  # already a known finding site
+    parts = arg.split(';')
+    parts = [p.replace("\\0", ";") for p in parts]''')
 m("C11", "syntaxerror-plain-token", TA,
   '''            raise ExpressionError(exc.msg, string)''',
   '''            raise ExpressionError(exc.msg, str(string))''')
